@@ -292,6 +292,38 @@ def check_mutations(ctx):
         raise AnalysisError('R-EFFECT cannot see its positive fixture (%d of 3)' % len(hits))
 
 
+def _input_deps(f, e):
+    """the inputs of function f an expression depends on: parameters (as `p` or `p.attr`), `self.attr`"""
+    params = set(f.params + f.kwonly)
+    out = set()
+    skip = set()
+    for n in ast.walk(e):
+        if isinstance(n, ast.Attribute) and isinstance(n.value, ast.Name) and n.value.id in params:
+            out.add('%s.%s' % (n.value.id, n.attr))
+            skip.add(id(n.value))
+    for n in ast.walk(e):
+        if isinstance(n, ast.Name) and n.id in params and id(n) not in skip and n.id != 'self':
+            out.add(n.id)
+    return out
+
+
+def _memo_missing(f, store):
+    """-> sorted inputs the stored value depends on but the key does not mention; None when not analysable"""
+    view = view_of(f)
+    try:
+        key = view.expand(store.targets[0].slice, store)
+        val = view.expand(store.value, store)
+    except Exception:
+        return None
+    if any(isinstance(n, ast.Name) and '@' in n.id for n in ast.walk(val)):
+        return None         # a value with several reaching definitions: not a plain memo
+    kd, vd = _input_deps(f, key), _input_deps(f, val)
+    if not vd:
+        return None
+    missing = [d for d in sorted(vd) if d not in kd and d.split('.')[0] not in kd]
+    return missing
+
+
 def check_globals(ctx):
     repo = ctx.repo
     n = 0
@@ -321,6 +353,17 @@ def check_globals(ctx):
                 r = _root(x.func.value) if not isinstance(x.func.value, ast.Name) else x.func.value.id
                 if r in f.module.globals and r not in local:
                     tgt = U(x)[:60]
+            if tgt and isinstance(x, ast.Assign) and len(x.targets) == 1 and isinstance(x.targets[0], ast.Subscript) \
+                    and isinstance(x.targets[0].value, ast.Name):
+                # `CACHE[key] = value`: a memo. It cannot influence a later call iff the value is determined by the key.
+                missing = _memo_missing(f, x)
+                if missing is not None:
+                    ctx.check('R-EFFECT/memo', f, tgt, not missing,
+                              'the value memoised in the module-level `%s` depends on %s, which %s not part of the key `%s`: '
+                              'a later call with another value gets the stale result'
+                              % (x.targets[0].value.id, ', '.join('`%s`' % m_ for m_ in missing), 'is' if len(missing) == 1 else 'are',
+                                 U(x.targets[0].slice)[:60]), x, sample='memo keyed by every input of the value')
+                    continue
             if tgt:
                 ctx.check('R-EFFECT/global', f, tgt, False, '`%s` changes a module-level object' % tgt, x)
         # mutable default arguments that are mutated
